@@ -4,7 +4,6 @@ import (
 	"encoding/json"
 	"errors"
 	"sort"
-	"sync"
 	"time"
 
 	"github.com/jcmturner/gokrb5/v8/messages"
@@ -14,7 +13,7 @@ import (
 // Cache for service tickets held by the client.
 type Cache struct {
 	Entries map[string]CacheEntry
-	mux     sync.RWMutex
+	mux     cacheMutex
 }
 
 // CacheEntry holds details for a cache entry.
